@@ -461,6 +461,9 @@ func buildIntrinsics() map[string]Intrinsic {
 
 	// ---- math
 	m["math.Pow10"] = func(g *Goroutine, c *frame, fn *ssa.Function, a []Value) (Value, bool) {
+		if a[0].R != nil {
+			return Value{K: KFloat, W: 64, R: opaqueFloat{}}, true
+		}
 		n := g.forceInt(a[0])
 		return Value{K: KFloat, W: 64, N: math.Float64bits(math.Pow10(int(n)))}, true
 	}
@@ -834,6 +837,26 @@ func (g *Goroutine) sortSlice(c *frame, x Value, less Value, stable bool) {
 }
 
 func addMiscIntrinsics(m map[string]Intrinsic) {
+	// X25519 key generation: an opaque key with fresh symbolic public and private bytes.
+	m["(*crypto/ecdh.x25519Curve).GenerateKey"] = func(g *Goroutine, c *frame, fn *ssa.Function, a []Value) (Value, bool) {
+		prog := g.w.prog
+		privT := prog.namedType("crypto/ecdh", "PrivateKey")
+		pubT := prog.namedType("crypto/ecdh", "PublicKey")
+		curveT := fn.Signature.Recv().Type()
+		curveIface := mkIface(curveT, a[0])
+		pub := zero(pubT)
+		setField(pub, pubT, "curve", curveIface)
+		setField(pub, pubT, "publicKey", mkSlice(g.p.freshBytes(32, "pk")))
+		pubCell := new(Value)
+		*pubCell = pub
+		priv := zero(privT)
+		setField(priv, privT, "curve", curveIface)
+		setField(priv, privT, "privateKey", mkSlice(g.p.freshBytes(32, "sk")))
+		setField(priv, privT, "publicKey", mkPtr(pubCell))
+		privCell := new(Value)
+		*privCell = priv
+		return tup(mkPtr(privCell), nilErr()), true
+	}
 	// unsafe helpers used by strings.Builder etc. are builtins (see callUnsafeBuiltin).
 	m["strings.(*Builder).copyCheck"] = noop
 	m["(*strings.Builder).copyCheck"] = noop
@@ -897,4 +920,15 @@ func (g *Goroutine) callUnsafeBuiltin(fr *frame, name string, args []Value) (Val
 		return mkPtr(np), true
 	}
 	return Value{}, false
+}
+
+func setField(v Value, t types.Type, name string, x Value) {
+	st := t.Underlying().(*types.Struct)
+	for i := 0; i < st.NumFields(); i++ {
+		if st.Field(i).Name() == name {
+			v.agg()[i] = x
+			return
+		}
+	}
+	panic("engine: no field " + name + " in " + t.String())
 }
